@@ -9,7 +9,18 @@ cases = [
  ('extract-helper-in-calendar', 'pjplan/calendar.py', [("        if self.__start is not None and date < self.__start:\n            return 0\n        if self.__end is not None and date > self.__end:\n            return 0\n\n        return self.__units", "        if self.__outside(date):\n            return 0\n\n        return self.__units\n\n    def __outside(self, date):\n        return (self.__start is not None and date < self.__start) or (self.__end is not None and date > self.__end)")], 'C17'),
  ('comprehension-to-loop', 'pjplan/task.py', [("        self.__predecessors = [v for v in value]\n", "        fresh_list = []\n        for v in value:\n            fresh_list.append(v)\n        self.__predecessors = fresh_list\n")], 'C16'),
  ('equivalent-condition', 'pjplan/schedule.py', [("            if max_available > 0:\n                left_hours -= resource_usage.reserve(resource, date, task, min(left_hours, max_available))\n            days += 1\n\n            if days > max_steps:\n                raise RuntimeError(f\"Can't calculate", "            if 0 < max_available:\n                left_hours -= resource_usage.reserve(resource, date, task, min(max_available, left_hours))\n            days += 1\n\n            if days > max_steps:\n                raise RuntimeError(f\"Can't calculate")], 'C04'),
+ ('children-setter-rename-loop-variable', 'pjplan/task.py', [("        for v in self.__children:\n            v.__parent = None\n            if not any(v is n for n in value):\n                v._detach()", "        for old in self.__children:\n            old.__parent = None\n            if not any(old is n for n in value):\n                old._detach()")], 'C11'),
+ ('children-setter-swap-independent-checks', 'pjplan/task.py', [("            if ch is self or self in ch.all_children:\n                raise RuntimeError(f\"Task {self.id} is a child of {ch.id}. Can't make child a parent of its parent\")\n            _check_no_links_to_ancestors(ch, self)",
+    "            _check_no_links_to_ancestors(ch, self)\n            if ch is self or self in ch.all_children:\n                raise RuntimeError(f\"Task {self.id} is a child of {ch.id}. Can't make child a parent of its parent\")")], 'C15'),
+ ('children-setter-equivalent-test', 'pjplan/task.py', [("            if not any(v is n for n in value):\n                v._detach()", "            if any(v is n for n in value):\n                pass\n            else:\n                v._detach()")], 'C16'),
+ ('get-children-extract-local', 'pjplan/task.py', [("            for ch in t.__children:\n                yield ch\n                yield from get_children(ch)", "            kids = t.__children\n            for ch in kids:\n                yield ch\n                yield from get_children(ch)")], 'C05'),
+ ('wbs-remove-early-return-reshaped', 'pjplan/wbs.py', [("        if current.children.remove(task_to_remove):\n            return True\n", "        removed = current.children.remove(task_to_remove)\n        if removed:\n            return True\n")], 'C16'),
+ ('calc-rename-local', 'pjplan/schedule.py', [("forward_resource_usage", "usage")], 'C03'),
+ ('text-repr-equivalent-test', 'pjplan/utils.py', [("            if len(res) > 0:\n                res += '\\n'", "            if res != '':\n                res += '\\n'")], 'C20'),
+ ('id-test-reorder-independent-statements', 'pjplan/task.py', [("    parent_tree_ids = set([t.id for t in parent_tree])\n    new_task_ids = set([t.id for t in new_tasks])", "    new_task_ids = set([t.id for t in new_tasks])\n    parent_tree_ids = set([t.id for t in parent_tree])")], 'C05'),
 ]
+import sys as _s
+if len(_s.argv) > 1: cases = [c for c in cases if _s.argv[1] in c[0]]
 for name, rel, reps, prop in cases:
     d = tempfile.mkdtemp(prefix='canary'); shutil.copytree('/repo/src', d + '/src')
     p = f'{d}/src/{rel}'; s = open(p).read()
